@@ -178,6 +178,15 @@ def scalar_corpus():
                 (schema.str(v).len(..., n), v)]
     out += [(schema.str.alphabet("ab").len(2), "ab"), (schema.str.contains("an").len(2, 6), "banana"),
             (schema.str.alphabet("abn").contains("an"), "banana"), (schema.str.regex(r"^a+$").len if False else schema.str.regex(r"^a+$"), "aa")]
+    # unions whose alternatives are of the same kind and differ only below the top level
+    out += [(schema.any(schema.list(schema.int), schema.list(schema.str)), ["a", "b"]),
+            (schema.any(schema.list(schema.str), schema.list(schema.int)), [1]),
+            (schema.any(schema.dict({"id": schema.int}), schema.dict({"id": schema.str})), {"id": "x1"}),
+            (schema.any(schema.alias("uint", schema.int.min(0)), schema.alias("name", schema.str.len(1, ...))), "Bob"),
+            (schema.any(schema.list([schema.int]), schema.list([schema.str, schema.str]), schema.list([schema.none])), [None]),
+            (schema.dict({"m": schema.any(schema.dict({"k": schema.list(schema.int)}), schema.dict({"k": schema.list(schema.bool)}))}),
+             {"m": {"k": [True]}}),
+            (schema.any(schema.int.min(5), schema.int.max(0)), -1), (schema.any(schema.str.len(2), schema.str.len(3)), "abc")]
     nested = []
     for s, w in out[::3]:
         nested += [(schema.dict({"k": s, "z": schema.none}), {"k": w, "z": None}), (schema.list([schema.none, s]), [None, w]),
